@@ -118,6 +118,24 @@ mod verif_k_bits {
         kani::cover!((v & 0b11_000000) >> 6 == 0);
     }
 
+    // Output: a u64 with min as the common prefix, + as concatenation, - as its inverse
+    #[kani::proof]
+    fn bits_output() {
+        let a: u64 = kani::any();
+        let b: u64 = kani::any();
+        assert!(Output::new(a).value() == a);
+        assert!(Output::zero().value() == 0);
+        assert!(Output::new(a).is_zero() == (a == 0));
+        assert!(Output::new(a).prefix(Output::new(b)).value() == (if a <= b { a } else { b }));
+        if let Some(s) = a.checked_add(b) {
+            assert!(Output::new(a).cat(Output::new(b)).value() == s);
+        }
+        if a >= b {
+            assert!(Output::new(a).sub(Output::new(b)).value() == a - b);
+        }
+        kani::cover!(a >= b && b > 0);
+    }
+
     // pack_size is the least byte width; pack_delta_size that of the delta (0 for the empty final node)
     #[kani::proof]
     fn bits_pack_size() {
